@@ -425,9 +425,13 @@ fn resolve<'a, E: 'a + Send, R: Resolver>(
             .map(move |res| match res {
                 Ok(ips) => {
                     let mut ips = ips.iter();
-                    let one = ips
-                        .next()
-                        .expect("If there are no results, `Err(NoRecordsFound)` is expected.");
+                    // An answer section without a matching address record (e.g. only
+                    // CNAMEs) is a failed resolution, not a bug.
+                    let Some(one) = ips.next() else {
+                        return Err(Error::ResolveError(ResolveError::from(
+                            "No Matching Records Found",
+                        )));
+                    };
                     if let Some(two) = ips.next() {
                         Ok(Resolved::Many(
                             iter::once(one)
@@ -454,9 +458,13 @@ fn resolve<'a, E: 'a + Send, R: Resolver>(
                             RData::A(ip) => Some(Ipv4Addr::from(*ip)),
                             _ => None,
                         });
-                    let one = ips
-                        .next()
-                        .expect("If there are no results, `Err(NoRecordsFound)` is expected.");
+                    // An answer section without a matching address record (e.g. only
+                    // CNAMEs) is a failed resolution, not a bug.
+                    let Some(one) = ips.next() else {
+                        return Err(Error::ResolveError(ResolveError::from(
+                            "No Matching Records Found",
+                        )));
+                    };
                     if let Some(two) = ips.next() {
                         Ok(Resolved::Many(
                             iter::once(one)
@@ -483,9 +491,13 @@ fn resolve<'a, E: 'a + Send, R: Resolver>(
                             RData::AAAA(ip) => Some(Ipv6Addr::from(*ip)),
                             _ => None,
                         });
-                    let one = ips
-                        .next()
-                        .expect("If there are no results, `Err(NoRecordsFound)` is expected.");
+                    // An answer section without a matching address record (e.g. only
+                    // CNAMEs) is a failed resolution, not a bug.
+                    let Some(one) = ips.next() else {
+                        return Err(Error::ResolveError(ResolveError::from(
+                            "No Matching Records Found",
+                        )));
+                    };
                     if let Some(two) = ips.next() {
                         Ok(Resolved::Many(
                             iter::once(one)
